@@ -399,6 +399,11 @@ def sweep_cells(tier):
             cells.append(dict(ft="npz", compression=comp, decl=decl))
         cells.append(dict(ft="npz", compression=comp, bytes=True))
     cells.append(dict(ft="fb", compression="", bytes=True))
+    if tier == "quick":
+        # a small TFRecord part (needs the real TensorFlow runtime, ~15 s import; run as one batch)
+        for decl in ("int32", "float32", "float64"):
+            cells.append(dict(ft="tfrec", compression="", decl=decl))
+        cells.append(dict(ft="tfrec", compression="", bytes=True))
     if tier == "thorough":
         for comp in ("", "GZIP", "ZLIB"):
             for decl in ("int8", "uint8", "int32", "int64", "float16", "float32", "float64"):
@@ -412,15 +417,39 @@ def _chunks(xs, n):
     return [xs[i:i + k] for i in range(0, len(xs), k)]
 
 
+def _tf_batch_subprocess(batch):
+    """TFRecord cells need the real TensorFlow: a fresh interpreter (the pool workers were forked with the TF stub loaded)."""
+    import json
+    import pickle
+    import subprocess
+    import sys
+    import base64
+    r = subprocess.run([sys.executable, "-m", "vtlib.checks.c01", json.dumps(batch)], capture_output=True, text=True, timeout=3000,
+                       cwd=str(common.VERIF))
+    for line in r.stdout.split("\n"):
+        if line.startswith("RESULT "):
+            return pickle.loads(base64.b64decode(line[7:]))
+    st = Stats()
+    st.inconclusive.append("TFRecord sweep sub-process failed: " + r.stderr[-300:])
+    return st
+
+
 def _dispatch(job):
-    return _kernel_batch(job[1]) if job[0] == "kernel" else _sweep_batch(job[1])
+    if job[0] == "kernel":
+        return _kernel_batch(job[1])
+    if job[1] and job[1][0]["ft"] == "tfrec":
+        return _tf_batch_subprocess(job[1])
+    return _sweep_batch(job[1])
 
 
 def run(tier, seed):
     common.import_sedpack()
     kc = kernel_cells(tier)
     sc = sweep_cells(tier)
-    jobs = [("kernel", b) for b in _chunks(kc, 12)] + [("sweep", b) for b in _chunks(sc, 14 if tier == "quick" else 40)]
+    tf_cells = [c for c in sc if c["ft"] == "tfrec"]
+    sc = [c for c in sc if c["ft"] != "tfrec"]
+    jobs = [("sweep", b) for b in _chunks(tf_cells, 1 if tier == "quick" else 6)] + \
+           [("kernel", b) for b in _chunks(kc, 12)] + [("sweep", b) for b in _chunks(sc, 14 if tier == "quick" else 40)]
     st, per_cell, errors = par.run_cells(_dispatch, jobs)
     viols, seen = [], set()
     for c in st.cex:
@@ -496,3 +525,12 @@ def replay(case):
             if not same_bits(got, exp, np.dtype(cell["decl"])) or got.dtype != np.dtype(cell["decl"]):
                 return True, f"real fb round trip: wrote {np.asarray(x).tolist()} ({src.str}, {cell['layout']}), read {got.tolist()} ({got.dtype})"
     return False, "the real round trip returned the written values"
+
+
+if __name__ == "__main__":
+    import base64
+    import json
+    import pickle
+    import sys
+    _st = _sweep_batch(json.loads(sys.argv[1]))
+    print("RESULT " + base64.b64encode(pickle.dumps(_st)).decode(), flush=True)
